@@ -39,6 +39,7 @@ mod sync_exchange;
 mod gossip_loop;
 mod manifest_race;
 mod exec_inline;
+mod orset;
 use std::panic;
 
 pub struct Found {
@@ -115,6 +116,7 @@ fn main() {
         "gossip_loop" => gossip_loop::search(&pid, &oid, seed),
         "manifest_race" => manifest_race::search(&pid, &oid, seed),
         "exec_inline" => exec_inline::search(&pid, &oid, seed),
+        "orset" => orset::search(&pid, &oid, seed),
         _ => None,
     };
     match res {
